@@ -189,7 +189,7 @@ fn own_steps_table(tree: &Tree) -> HashMap<usize, usize> {
 fn run_c12(input: &Input, ctx: &Ctx, tier: Tier) -> CaseOut {
     let p = profile_for("C12", tier, ctx);
     let mut ta = Tape::new(input.a.clone());
-    let with_repeat = ta.chance(1, 3);
+    let with_repeat: u8 = [0, 0, 0, 1, 2][ta.pick(5)];
     let tree = gen_tree(&mut ta, &p);
     let mut tb = Tape::new(input.b.clone());
     let stream = linearise(&mut tb, &tree, true, true);
@@ -199,7 +199,7 @@ fn run_c12(input: &Input, ctx: &Ctx, tier: Tier) -> CaseOut {
     let c = &out.recount;
     let nontrivial = c.has_retried_attempt && (c.hook_errors > 0 || c.has_skip);
     let mut labels = vec![];
-    if with_repeat {
+    if with_repeat > 0 {
         labels.push("under_repeat");
     }
     if c.sc_aborted > 0 {
@@ -385,7 +385,9 @@ fn run_c01(input: &Input, ctx: &Ctx, tier: Tier) -> CaseOut {
     let out = verdict::check(&stream, &allow, &chosen);
     let mut violations = out.violations;
     if violations.is_empty() || ctx.strict {
-        violations.extend(verdict::check_run_and_exit(&stream, &allow, tb.chance(1, 2)));
+        let fos = tb.chance(1, 2);
+        let lt = tb.chance(1, 3);
+        violations.extend(verdict::check_run_and_exit(&stream, &allow, fos, lt));
     }
     crate::lab::driver::install_probe_hook();
     let x = &out.expected;
